@@ -1,12 +1,79 @@
 import Vorbis.File.Model
 namespace Vorbis.Props.C07
 open Vorbis Vorbis.File Vorbis.Block
+set_option linter.unusedSimpArgs false
 
-/-- placeholder obligation replaced below -/
+/-- a position recovered from a granule position never lies before the link it was found in -/
 theorem C07_granToPos_ge (vf : VF) (link : Nat) (g : Int) :
     sumLen vf.pcmlengths link ≤ granToPos vf link g := by
   unfold granToPos
   simp only []
   split <;> omega
+
+/-- the consuming step of a read: it returns no more than was asked for and no more than is decoded,
+    and the reported position advances by exactly the samples returned (two per sample at half rate) -/
+theorem C07_read_advances (vf : VF) (length : Int) (hl : 0 < length) (ha : 0 < readAvail vf) (hh : vf.hs = 0 ∨ vf.hs = 1) :
+    0 < (readTake vf length).1 ∧ (readTake vf length).1 ≤ length ∧ (readTake vf length).1 ≤ readAvail vf ∧
+    (readTake vf length).2.pcm_offset = vf.pcm_offset + (if vf.hs = 1 then 2 else 1) * (readTake vf length).1 := by
+  unfold readTake
+  simp only []
+  generalize readAvail vf = av at ha ⊢
+  by_cases hc : av > length
+  · simp only [hc, if_true]
+    rcases hh with h | h
+    · simp only [h, shl]; refine ⟨hl, Int.le_refl _, by omega, ?_⟩; simp
+    · simp only [h, shl]; refine ⟨hl, Int.le_refl _, by omega, ?_⟩; simp; omega
+  · simp only [hc, if_false]
+    rcases hh with h | h
+    · simp only [h, shl]; refine ⟨ha, by omega, Int.le_refl _, ?_⟩; simp
+    · simp only [h, shl]; refine ⟨ha, by omega, Int.le_refl _, ?_⟩; simp; omega
+
+/-- and the decoder hands out exactly that many fewer samples afterwards -/
+theorem C07_read_consumes (vf : VF) (length : Int) (d : Dec) (hv : vf.vd = some d) (hr : vf.ready = INITSET)
+    (hl : 0 < length) (ha : 0 < d.pcmout) :
+    ∃ d', (readTake vf length).2.vd = some d' ∧ d'.pcmout = d.pcmout - (readTake vf length).1 := by
+  have hav : readAvail vf = d.pcmout := by simp [readAvail, hr, hv]
+  unfold readTake
+  simp only [hav, hv, Option.map_some]
+  refine ⟨_, rfl, ?_⟩
+  have hp : d.ret > -1 ∧ d.ret < d.cur := by
+    unfold Dec.pcmout at ha
+    by_cases hc : d.ret > -1 ∧ d.ret < d.cur
+    · exact hc
+    · simp [hc] at ha
+  have hpo : d.pcmout = d.cur - d.ret := by unfold Dec.pcmout; simp [hp]
+  rw [hpo]
+  by_cases hgt : d.cur - d.ret > length
+  · simp only [hgt, if_true]
+    have h1 : ¬ (length ≠ 0 ∧ d.ret + length > d.cur) := by omega
+    have h2 : d.ret + length > -1 ∧ d.ret + length < d.cur := by omega
+    simp [Dec.read, Dec.pcmout, h1, h2]
+    omega
+  · simp only [hgt, if_false]
+    have h1 : ¬ (d.cur - d.ret ≠ 0 ∧ d.ret + (d.cur - d.ret) > d.cur) := by omega
+    have h2 : ¬ (d.ret + (d.cur - d.ret) > -1 ∧ d.ret + (d.cur - d.ret) < d.cur) := by omega
+    simp [Dec.read, Dec.pcmout, h1, h2]
+
+/-- every successful page seek loads a decoder without lapping history for the link of the target
+    (or none at all, to be built on the next read): nothing decoded before the seek can leak into what follows -/
+theorem C07_select_link_fresh (link : Nat) (s : VF) :
+    ((selectLink link).run s).2.vd = none ∨
+    ((selectLink link).run s).2.vd = some (freshDec s) := by
+  unfold selectLink
+  by_cases h : (link : Int) ≠ s.current_link ∨ s.ready < STREAMSET
+  · left
+    simp [StateT.run, bind, StateT.bind, get, getThe, MonadStateOf.get, StateT.get, modify, modifyGet, MonadStateOf.modifyGet,
+      StateT.modifyGet, pure, StateT.pure, decodeClear, restartDec, h]
+  · cases hv : s.vd with
+    | none =>
+        left
+        simp [StateT.run, bind, StateT.bind, get, getThe, MonadStateOf.get, StateT.get, modify, modifyGet, MonadStateOf.modifyGet,
+          StateT.modifyGet, pure, StateT.pure, decodeClear, restartDec, h, hv]
+    | some d =>
+        right
+        simp [StateT.run, bind, StateT.bind, get, getThe, MonadStateOf.get, StateT.get, modify, modifyGet, MonadStateOf.modifyGet,
+          StateT.modifyGet, pure, StateT.pure, decodeClear, restartDec, h, hv]
+
+example : readAvail { ready := INITSET, vd := some { lW := false, W := false, cW := 0, cur := 10, ret := 4, gran := -1, seq := 0, sc := 0, eof := false } } = 6 := by decide
 
 end Vorbis.Props.C07
